@@ -51,8 +51,8 @@ func Declarable(e *Eff, body *hclsyntax.Body, prefix string) []Cand {
 	for t, b := range e.Blocks {
 		types[t] = b
 	}
-	if _, real := types["dynamic"]; !real && e.Ext.DynamicBlocks && len(e.Blocks) > 0 {
-		types["dynamic"] = dynamicBlockSchema(e.Blocks)
+	if _, real := types["dynamic"]; !real && e.DynKnown {
+		types["dynamic"], _ = e.BlockSchemaFor("dynamic")
 	}
 	for t, b := range types {
 		if _, clash := e.Attributes[t]; clash {
